@@ -184,6 +184,8 @@ impl Architecture {
 
     /// Adds an argmax layer to this architecture.
     pub fn argmax(&mut self) -> Result<(), ShapeError> {
+        // argmax returns a single value (the index of the maximal component)
+        self.current_shape = TensorShape::Flat { in_dim: 1 };
         self.operators.push((Layer::Argmax, self.current_shape));
         Ok(())
     }
